@@ -63,7 +63,9 @@ def run(rep, tier):
     order = [("LoadDefaults", "CheckUserInput"), ("CheckUserInput", "OverwriteDefaultsWithUserInput"), ("OverwriteDefaultsWithUserInput", "RemoveOptional"),
              ("OverwriteDefaultsWithUserInput", "CheckRequired"), ("OverwriteDefaultsWithUserInput", "RecursivelyCheckOptions"),
              ("InjectDefaultsAsValues", "RecursivelyCheckOptions"), ("OverwriteDefaultsWithUserInput", "InjectDefaultsAsValues"),
-             ("RemoveOptional", "InjectDefaultsAsValues"), ("CheckRequired", "InjectDefaultsAsValues")]
+             ("RemoveOptional", "InjectDefaultsAsValues"), ("CheckRequired", "InjectDefaultsAsValues"),
+             # an OPTIONAL section the user left out is pruned before REQUIRED is enforced: its REQUIRED leaves are not the user's obligation
+             ("RemoveOptional", "CheckRequired")]
     for a, b in order:
         if len(calls.get(a, [])) == 1 and len(calls.get(b, [])) == 1:
             rep.check(g.dominates(calls[a][0]["id"], calls[b][0]["id"]) and calls[a][0]["id"] != calls[b][0]["id"], "R11.1", "order|%s<%s" % (a, b), "%s before %s" % (a, b),
